@@ -313,8 +313,11 @@ def rule_e(ctx):
     z = b.calls(lambda cd, t: callee_method(t) == "zip")
     il = b.calls(lambda cd, t: ends(cd, "SubRenderer::<D>::into_lines"))
     ctx.check(len(z) == 1 and len(il) == 1, "C07-E", "lines-zipped-with-prefixes", b.span, b.id, "")
-    bad = [callee_method(t) for bb, t in b.calls() if callee_method(t) in ("rev", "skip", "take", "step_by", "filter")]
-    ctx.check(not bad, "C07-E", "all-lines-in-order", b.span, b.id, str(bad))
+    bad = [callee_method(t) for bb, t in b.calls() if callee_method(t) in
+           ("rev", "skip", "take", "step_by", "filter", "filter_map", "skip_while", "take_while", "pop", "pop_back", "pop_front", "truncate",
+            "drain", "retain", "split_off", "remove", "dedup", "swap_remove", "clear")]
+    ctx.check(not bad, "C07-E", "all-lines-in-order", b.span, b.id,
+              "the inner block's lines are not all handed on in order (%s): a dropped line is a line of the block without its prefix" % bad)
 
 
 def rule_f(ctx):
